@@ -363,6 +363,13 @@ def _parent(check, args):
             print(f"KNOWN-FINDING: property={prop} {mech}: {known[mech].get('description', '')} [{n} case(s) this run, e.g. {_short(ex)}]")
         nviol = 0
         rdir = os.path.join(VERIF, "replays", prop)
+        if replay_case is None and os.path.isdir(rdir):
+            for fn in os.listdir(rdir):  # witnesses of an earlier run with the same tier/seed are stale
+                if fn.endswith(f"-seed{seed}.json"):
+                    try:
+                        os.remove(os.path.join(rdir, fn))
+                    except OSError:
+                        pass
         if unlisted:
             os.makedirs(rdir, exist_ok=True)
         for mech, vs in list(unlisted.items())[:20]:
